@@ -1,5 +1,5 @@
 CONSTANT MaxLen = 3
-CONSTANT SeqExtra = 2
+CONSTANT SeqExtra = 1
 CONSTANT Slots = {"endpoint"}
 INIT Init
 NEXT Next
